@@ -873,4 +873,59 @@ theorem Doc.canon_id (cfg : Cfg) (d : Doc) (h : d.Strict cfg) : d.canon cfg = d 
       map_id_of j _ (fun x hm => EnvObs.canon_id x (h.envs x hm)),
       map_id_of k _ (fun x hm => PlanningProblem.canon_id cfg x (h.problems x hm))]
 
+/-! ## the whole file -/
+
+def AddTransformation.mapR (m : RealMaps) (a : AddTransformation) : AddTransformation := ⟨m.g a.x, m.g a.y, m.g a.rot, m.g a.scaling⟩
+def GeoTransformation.mapR (m : RealMaps) (g : GeoTransformation) : GeoTransformation := ⟨g.ref, g.add.map (AddTransformation.mapR m)⟩
+def Location.mapR (m : RealMaps) (l : Location) : Location := ⟨l.geoNameId, m.g l.lat, m.g l.lon, l.geo.map (GeoTransformation.mapR m), l.env⟩
+
+def File.mapR (m : RealMaps) (f : File) : File :=
+  ⟨⟨m.g f.header.dt, f.header.author, f.header.affiliation, f.header.source, f.header.benchmarkId⟩, f.location.map (Location.mapR m),
+   f.tags, f.body.mapR m⟩
+
+/-- no location ↦ the default location; the tags in the order of the `Tag` enumeration, once each -/
+def File.canon (fc : FileCfg) (f : File) : File :=
+  ⟨f.header, some (f.location.getD defaultLocation), allTags.filter (fun t => f.tags.contains t),
+   f.body.canon (fc.cfgFor f.header.benchmarkId)⟩
+
+theorem locationE_norm_eq (P : Params) (l : Location) : (locationE P).norm l = l.mapR (realMaps P) := by
+  show (⟨l.geoNameId, decimalToStr P l.lat, decimalToStr P l.lon, l.geo.map (geoE P).norm, l.env.map envE.norm⟩ : Location) = _
+  have hg : l.geo.map (geoE P).norm = l.geo.map (GeoTransformation.mapR (realMaps P)) := by
+    cases l.geo <;> rfl
+  have he : l.env.map envE.norm = l.env := by
+    cases l.env with
+    | none => rfl
+    | some e => cases e; rfl
+  rw [hg, he]
+  rfl
+
+theorem normFile_eq (fc : FileCfg) (hd : 1 ≤ fc.P.d) (hne : fc.classes ≠ []) (f : File) (hl : ∀ l, l ∈ f.body.lanelets → l.Ok) :
+    normFile fc f = (f.canon fc).mapR (realMaps fc.P) := by
+  have hb := normDoc_eq (fc.cfgFor f.header.benchmarkId) hd hne f.body hl
+  simp only [normFile, File.canon, File.mapR]
+  congr 1
+  · show (locationC fc.P).norm f.location = _
+    cases f.location with
+    | none => simp [locationC, Codec.iso, Codec.optional, locationE_norm_eq]
+    | some l => simp [locationC, Codec.iso, Codec.optional, locationE_norm_eq]
+
+/-- a location is given, the tags are listed in enumeration order -/
+structure File.Strict (fc : FileCfg) (f : File) : Prop where
+  location : f.location.isSome
+  tags : allTags.filter (fun t => f.tags.contains t) = f.tags
+  body : f.body.Strict (fc.cfgFor f.header.benchmarkId)
+
+theorem File.canon_id (fc : FileCfg) (f : File) (h : f.Strict fc) : f.canon fc = f := by
+  cases f with
+  | mk hdr loc tags body =>
+    have h1 := h.location
+    have h2 := h.tags
+    have h3 := Doc.canon_id _ _ h.body
+    simp only at h1 h2 h3
+    cases loc with
+    | none => cases h1
+    | some l =>
+      simp only [File.canon, Option.getD_some, h3]
+      rw [h2]
+
 end CR.X
